@@ -302,6 +302,16 @@ Section MatcherCorrect.
      library does: Contains does not test the root's output flag) and accepts host-name patterns *)
   Hypothesis Hac : forall pats q, ac pats q = ac_real pats q.
   Hypothesis Hacok : forall pats, forallb pat_ok pats = true -> ac_ok pats = true.
+  (* any trie implementation that, on key lists satisfying a side condition [good], accepts valid keys and
+     answers has_prefix *)
+  Variable trie_t : Type.
+  Variable t_new : list str -> option trie_t.
+  Variable t_has : trie_t -> str -> bool.
+  Variable good : list str -> Prop.
+  Hypothesis t_new_total : forall keys, keys <> [] ->
+    forallb (forallb (vc_valid valid_domain_chars)) keys = true -> good keys -> exists t, t_new keys = Some t.
+  Hypothesis t_has_spec : forall keys t w, keys <> [] -> good keys -> t_new keys = Some t ->
+    t_has t w = has_prefix keys w.
 
   Let chars := valid_domain_chars.
 
@@ -422,26 +432,29 @@ Section MatcherCorrect.
       [now apply full_keys_valid in H | now apply suffix_keys_valid in H].
   Qed.
 
-  (* Build over the abstract trie *)
-  Lemma build_tries_abs : forall (f : N -> list str) d,
+  (* Build over such a trie *)
+  Lemma build_tries_gen : forall (f : N -> list str) d,
     (forall i k, In k (f i) -> forallb (vc_valid chars) (to_suffix_trie_string k) = true) ->
-    exists ts, build_tries (list str) (abs_new chars) f d = Some ts
+    (forall i, f i <> [] -> good (map to_suffix_trie_string (f i))) ->
+    exists ts, build_tries trie_t t_new f d = Some ts
       /\ forall i w, (f i <> [] -> In i d) ->
-           match lookup ts i with Some t => abs_has t w | None => false end
+           match lookup ts i with Some t => t_has t w | None => false end
            = has_prefix (map to_suffix_trie_string (f i)) w.
   Proof.
-    intros f d Hv. induction d as [|j d [ts [Hb Hl]]].
+    intros f d Hv Hg. induction d as [|j d [ts [Hb Hl]]].
     - exists []. split; [reflexivity|]. intros i w Hi. simpl.
       destruct (f i) eqn:E; [reflexivity|]. exfalso. apply Hi. discriminate.
     - cbn [build_tries]. destruct (f j) as [|k0 ks] eqn:Ej.
       + exists ts. split; [exact Hb|]. intros i w Hi. apply Hl. intro Hne.
         destruct (Hi Hne) as [->|H]; [congruence | exact H].
-      + assert (Hn : abs_new chars (map to_suffix_trie_string (k0 :: ks)) = Some (map to_suffix_trie_string (k0 :: ks))).
-        { unfold abs_new. replace (forallb _ _) with true; [reflexivity|]. symmetry.
-          rewrite forallb_forall. intros k Hk. apply in_map_iff in Hk as [k' [<- Hk']]. apply (Hv j). now rewrite Ej. }
+      + assert (Hne0 : map to_suffix_trie_string (k0 :: ks) <> []) by discriminate.
+        assert (Hgood : good (map to_suffix_trie_string (k0 :: ks))).
+        { rewrite <- Ej. apply Hg. rewrite Ej. discriminate. }
+        destruct (t_new_total (map to_suffix_trie_string (k0 :: ks)) Hne0) as [t Hn]; [|exact Hgood|].
+        { rewrite forallb_forall. intros k Hk. apply in_map_iff in Hk as [k' [<- Hk']]. apply (Hv j). now rewrite Ej. }
         rewrite Hn, Hb. eexists. split; [reflexivity|]. intros i w Hi. cbn [lookup].
         destruct (N.eqb_spec j i) as [->|Hji].
-        * now rewrite Ej.
+        * rewrite Ej. apply (t_has_spec _ t w Hne0 Hgood Hn).
         * apply Hl. intro Hne. destruct (Hi Hne) as [H|H]; [congruence | exact H].
   Qed.
 
@@ -496,10 +509,11 @@ Section MatcherCorrect.
 
   Lemma matcher_correct : forall sets names idxs,
     kw_nonempty sets = true -> forallb name_ok names = true ->
-    run chars rx_ok rx ac_ok ac (list str) (abs_new chars) abs_has sets names idxs
+    (forall i, at_idx trie_keys sets i <> [] -> good (map to_suffix_trie_string (at_idx trie_keys sets i))) ->
+    run chars rx_ok rx ac_ok ac trie_t t_new t_has sets names idxs
     = if sets_ok rx_ok sets then Some (map (fun raw => filter (bit rx sets raw) idxs) names) else None.
   Proof.
-    intros sets names idxs Hk Hn. unfold run. change (add_sets chars rx_ok sets) with (fold_left step sets st0).
+    intros sets names idxs Hk Hn Hgood. unfold run. change (add_sets chars rx_ok sets) with (fold_left step sets st0).
     rewrite sets_ok_eq. destruct (forallb set_ok sets) eqn:Hs.
     - destruct (fold_ok sets st0 eq_refl Hs) as [E [T [A [R D]]]]. cbv zeta in *.
       set (s := fold_left step sets st0) in *. cbn [st0 to_trie to_ac regexps dom app] in T, A, R, D.
@@ -508,8 +522,9 @@ Section MatcherCorrect.
       2:{ symmetry. rewrite forallb_forall. intros i _. rewrite A. destruct (at_idx kw_pats sets i) eqn:Ea; [easy|].
           apply Hacok. rewrite <- Ea. apply kw_pats_at_ok. }
       cbn [negb].
-      destruct (build_tries_abs (to_trie s) (dom s)) as [ts [Hb Hl]].
+      destruct (build_tries_gen (to_trie s) (dom s)) as [ts [Hb Hl]].
       { intros i k. rewrite T. apply trie_keys_valid. }
+      { intros i. rewrite T. apply Hgood. }
       rewrite Hb. f_equal. apply map_ext_in. intros raw Hraw.
       assert (Hr : name_ok raw = true) by (rewrite forallb_forall in Hn; now apply Hn).
       apply filter_ext_in. intros i _. unfold match_bit. cbn [m_trie m_ac m_rx].
@@ -576,12 +591,23 @@ Definition model_answer rx_ok rx sets names idxs :=
 Definition spec_answer (rx_ok : str -> bool) (rx : str -> str -> bool) (sets : list pset) (names : list str) (idxs : list N) :=
   if sets_ok rx_ok sets then Some (map (fun raw => filter (bit rx sets raw) idxs) names) else None.
 
+Lemma abs_new_total : forall keys, keys <> [] ->
+  forallb (forallb (vc_valid valid_domain_chars)) keys = true -> True -> exists t, abs_new valid_domain_chars keys = Some t.
+Proof. intros keys _ H _. unfold abs_new. rewrite H. now exists keys. Qed.
+
+Lemma abs_has_spec : forall keys t w, keys <> [] -> True -> abs_new valid_domain_chars keys = Some t ->
+  abs_has t w = has_prefix keys w.
+Proof.
+  intros keys t w _ _ H. unfold abs_new in H. destruct (forallb (forallb (vc_valid valid_domain_chars)) keys); [|discriminate]. now inversion H.
+Qed.
+
 Lemma matcher_partial : forall rx_ok rx sets names idxs,
   kw_nonempty sets = true -> forallb name_ok names = true ->
   model_answer rx_ok rx sets names idxs = spec_answer rx_ok rx sets names idxs.
 Proof.
   intros. unfold model_answer, spec_answer.
-  apply (matcher_correct rx_ok rx ac_ok_lib ac_real (fun _ _ => eq_refl) ac_ok_lib_plain); assumption.
+  apply (matcher_correct rx_ok rx ac_ok_lib ac_real (fun _ _ => eq_refl) ac_ok_lib_plain
+           (list str) (abs_new valid_domain_chars) abs_has (fun _ => True) abs_new_total abs_has_spec); auto.
 Qed.
 
 Lemma matcher_full_refuted :
